@@ -14,9 +14,26 @@
      path_ok t li x l    l = [(li-1, p1); (li-2, p2); ...; (0, p_li)] with every p_j a node of level j
                          that lists the previous element (x first)
      squash li l         l without its entry of level li, the levels above li renumbered down by one
-     up_level li j       position in the original tree of level j of the tree without level li *)
+     up_level li j       position in the original tree of level j of the tree without level li
+
+   Unchecked and checked queries.  `ancestors` and `children` are total: where the code raises
+   (parents() of a name that is no node: KeyError; children() of such a name: RuntimeError) they
+   return [].  The checked versions ancestors_chk / children_chk return the error as a value and
+   are the ones the harness compares with the code on non-nodes (tags 1012, 1016).  Statements
+   below that quantify over every (level, name) with the unchecked queries (c10_leaf_pairs_exact,
+   c10_drop_preserves, c10_roundtrip_preserves) are true for non-nodes too, but only because both
+   sides are []: they speak about the code exactly on nodes, where c10_queries_total_on_nodes shows
+   unchecked = checked; c10_drop_preserves_on_nodes and c10_roundtrip_on_nodes restate the ancestor
+   clauses on nodes with the checked query.
+
+   By construction of the model (the content of these is in the tie, not in the theorem):
+   c10_drop_errors is the if-chain of drop_level_gen read off; the clause t' = [leaf_level t] of
+   c10_flatten_preserves is the definition of flatten; is_equal_to t t in c10_roundtrip_preserves
+   is reflexivity of the model's set comparison. *)
 From Coq Require Import ZArith List Bool Permutation Lia.
-From CTM Require Import Base.Sx Base.SortX Model.Tree Proofs.TreeP Proofs.TreeBackfillP.
+From CTM Require Import Base.Sx Base.SortX Model.Tree Model.TreeReread Proofs.TreeP Proofs.TreeBackfillP
+  Proofs.TreeRereadP Proofs.TreeQueriesP Proofs.TreeBackfillLinkP.
+From CTM Require Model.RunMapping.
 Import ListNotations.
 Open Scope Z_scope.
 
@@ -152,6 +169,23 @@ Theorem c10_parent_child_inverse : forall t, validate t = true -> wf t ->
 Proof. exact parent_child_inverse. Qed.
 Print Assumptions c10_parent_child_inverse.
 
+(* the unchecked queries used in the statements of this file are the checked ones on nodes; on a
+   name that is not a node of the level the code raises: children() RuntimeError, parents()
+   KeyError -- except at the top level, where parents() returns {} for any name, in the code as in
+   the model -- and the unchecked queries return [] *)
+Theorem c10_queries_total_on_nodes : forall t, validate t = true -> wf t ->
+  forall li x, (li < length t)%nat ->
+  (In x (nodes (nth li t [])) ->
+     ancestors_chk t li x = TOk (ancestors t li x) /\
+     children_chk t li x = TOk (children t (Some (li, x)))) /\
+  (~ In x (nodes (nth li t [])) ->
+     children_chk t li x = TErr E_NONODE /\ children t (Some (li, x)) = [] /\
+     ancestors t li x = [] /\
+     ((0 < li)%nat -> ancestors_chk t li x = TErr E_KEY) /\
+     (li = 0%nat -> ancestors_chk t li x = TOk [])).
+Proof. exact queries_total_on_nodes. Qed.
+Print Assumptions c10_queries_total_on_nodes.
+
 (* ====================================================================== leaf lists *)
 
 (* as_leaves[level k][x] = leaves_of t k x.  For every accepted tree the leaf lists of a node's
@@ -183,7 +217,11 @@ Print Assumptions c10_leaves_by_ancestor.
 
 (* for every accepted tree and every parent -- the root (None), inner nodes, leaf-level
    "parents" -- the pairs are listed once each and are exactly the name-ordered pairs of leaves
-   under two different children of the parent *)
+   under two different children of the parent.
+   (parent = Some (li, x) with x not a node of level li: the code raises RuntimeError in
+   children() -- children_chk t li x = TErr E_NONODE, c10_queries_total_on_nodes --; the model's
+   list is empty there and the statement says no more than that.  The tie calls leaves_to_compare
+   with the entries of all_parents and with leaves, all nodes.) *)
 Theorem c10_leaf_pairs_exact : forall t parent,
   validate t = true -> wf t ->
   (forall li x, parent = Some (li, x) -> (li < length t)%nat) ->
@@ -214,7 +252,22 @@ Theorem c10_drop_preserves : forall t li, validate t = true -> wf t -> (S li < l
 Proof. exact drop_preserves. Qed.
 Print Assumptions c10_drop_preserves.
 
-(* the three refusals of drop_level, in the order the code tests them *)
+(* the ancestor clause above holds for every (j, x); for a name x that is no node of level j of t'
+   both sides are [] while the code raises.  On the nodes of t' -- which are nodes of t at the
+   lifted position -- with the query that raises: neither tree raises, and the answers are related
+   by squash *)
+Theorem c10_drop_preserves_on_nodes : forall t li, validate t = true -> wf t -> (S li < length t)%nat ->
+  exists t', drop_level t li = TOk t' /\
+    forall j x, (j < length t')%nat -> In x (nodes (nth j t' [])) ->
+      In x (nodes (nth (up_level li j) t [])) /\
+      ancestors_chk t (up_level li j) x = TOk (ancestors t (up_level li j) x) /\
+      ancestors_chk t' j x = TOk (squash li (ancestors t (up_level li j) x)).
+Proof. exact drop_preserves_chk. Qed.
+Print Assumptions c10_drop_preserves_on_nodes.
+
+(* the three refusals of drop_level, in the order the code tests them.  By construction of the
+   model: this is the if-chain of drop_level_gen read off; that the code tests the same three
+   conditions in the same order with these messages is what the tie (tags 1004, 1014) checks *)
 Theorem c10_drop_errors : forall (t : tree) li,
   (length t = 1%nat -> drop_level t li = TErr E_FLAT) /\
   (length t <> 1%nat -> (length t <= li)%nat -> drop_level t li = TErr E_NOLEVEL) /\
@@ -258,7 +311,10 @@ Print Assumptions c10_drop_keeps_leaf_lists.
 
 (* flatten: never raises on an accepted tree; the result is the leaf level alone (leaf set and
    rows kept, no ancestors left), is accepted, cannot be reduced further, is a fixed point of
-   flatten, and is what flatten gives after any transformation that keeps the leaf level *)
+   flatten, and is what flatten gives after any transformation that keeps the leaf level.
+   (The clause t' = [leaf_level t] holds by construction of the model -- it is the definition of
+   flatten --; its content is in the tie, tag 1005.  The content proved here is that this tree is
+   accepted, i.e. that flatten does not raise.) *)
 Theorem c10_flatten_preserves : forall t, validate t = true -> wf t ->
   exists t', flatten t = TOk t' /\ validate t' = true /\ wf t' /\ t' = [leaf_level t] /\
     leaf_level t' = leaf_level t /\
@@ -268,10 +324,10 @@ Theorem c10_flatten_preserves : forall t, validate t = true -> wf t ->
 Proof. exact flatten_preserves. Qed.
 Print Assumptions c10_flatten_preserves.
 
-(* to_str / from_str.  On the modelled content to_str() followed by from_str() is the identity
-   (compared literally by the harness); with drop_cells=True the result is `drop_cells t`:
-   accepted, same levels, same nodes, same inner levels, no rows, same ancestors, and
-   is_equal_to the original (which is reflexive) *)
+(* to_str / from_str with drop_cells=True: the result is `drop_cells t`: accepted, same levels,
+   same nodes, same inner levels, no rows, same ancestors, and is_equal_to the original.
+   (The plain round trip is c10_reread_preserves below.  The last conjunct, is_equal_to t t, holds
+   by construction of the model -- set_eqb is reflexive --; its content is in the tie.) *)
 Theorem c10_roundtrip_preserves : forall t, validate t = true -> wf t ->
   validate (drop_cells t) = true /\ wf (drop_cells t) /\ length (drop_cells t) = length t /\
   (forall k, nodes (nth k (drop_cells t) []) = nodes (nth k t [])) /\
@@ -281,6 +337,82 @@ Theorem c10_roundtrip_preserves : forall t, validate t = true -> wf t ->
   is_equal_to t (drop_cells t) = true /\ is_equal_to t t = true.
 Proof. exact roundtrip_preserves. Qed.
 Print Assumptions c10_roundtrip_preserves.
+
+(* its ancestor clause on nodes, with the query that raises *)
+Theorem c10_roundtrip_on_nodes : forall t, validate t = true -> wf t ->
+  forall j x, (j < length t)%nat -> In x (nodes (nth j t [])) ->
+    In x (nodes (nth j (drop_cells t) [])) /\
+    ancestors_chk (drop_cells t) j x = TOk (ancestors t j x) /\
+    ancestors_chk t j x = TOk (ancestors t j x).
+Proof. exact roundtrip_preserves_chk. Qed.
+Print Assumptions c10_roundtrip_on_nodes.
+
+(* plain to_str() / from_str() (Model/TreeReread.v).  clean_for_json turns every Python *set* into the
+   sorted list of its elements and keeps the order of every list, tuple and dict; json keeps both.
+   Which child collections are sets is not part of the model's tree (get_taxonomy_tree / from_h5ad:
+   the children of every non-leaf node; a tree read from JSON: none; drop_level of the former: all
+   but the rebuilt level), so it is an argument: fs, shaped like the tree, true = set.  The re-read
+   tree is then `reread fs t`, and it is NOT t in general (c10_ex_reread).
+
+   General fact first: two trees with the same levels, the same keys in the same order and, per
+   key, child collections that are permutations of one another (tree_perm, restated at the end of
+   the file) are indistinguishable for the validator, for dict well-formedness, for nodes, for the
+   child -> parent table, for parents() INCLUDING when it raises, for children() up to order
+   (including when it raises), for is_equal_to and __eq__; their leaf lists and leaf pairs are
+   permutations of one another. *)
+Theorem c10_child_order_irrelevant : forall t u, tree_perm t u -> validate t = true -> wf t ->
+  validate u = true /\ wf u /\ length u = length t /\
+  (forall k, nodes (nth k u []) = nodes (nth k t [])) /\
+  (forall k c, parent_of (nth k u []) c = parent_of (nth k t []) c) /\
+  (forall li x, ancestors u li x = ancestors t li x) /\
+  (forall li x, ancestors_chk u li x = ancestors_chk t li x) /\
+  (forall parent, Permutation (children u parent) (children t parent)) /\
+  (forall li x, match children_chk t li x, children_chk u li x with
+                | TOk a, TOk b => Permutation b a
+                | TErr c, TErr d => c = d
+                | _, _ => False
+                end) /\
+  (forall li x, Permutation (leaves_of u li x) (leaves_of t li x)) /\
+  (forall parent, Permutation (leaf_pairs u parent) (leaf_pairs t parent)) /\
+  is_equal_to t u = true /\ tree_eqb t u = true.
+Proof. exact child_order_irrelevant. Qed.
+Print Assumptions c10_child_order_irrelevant.
+
+(* the round trip, for every accepted tree and EVERY assignment of "set" / "list" to its child
+   collections: accepted again, same levels, per level the same nodes in the same order, the same
+   child -> parent table, the same ancestors of every (level, node) -- and the same KeyError where
+   parents() raises --, the children of every parent (the root included) permuted, the same
+   RuntimeError where children() raises, the leaf list of every node permuted, the leaf pairs of
+   every parent permuted (as name-ordered pairs: leaf_pairs applies order_pair to each), equal to
+   the original for is_equal_to and for __eq__ *)
+Theorem c10_reread_preserves : forall fs t, validate t = true -> wf t ->
+  validate (reread fs t) = true /\ wf (reread fs t) /\ length (reread fs t) = length t /\
+  (forall k, nodes (nth k (reread fs t) []) = nodes (nth k t [])) /\
+  (forall k c, parent_of (nth k (reread fs t) []) c = parent_of (nth k t []) c) /\
+  (forall li x, ancestors (reread fs t) li x = ancestors t li x) /\
+  (forall li x, ancestors_chk (reread fs t) li x = ancestors_chk t li x) /\
+  (forall parent, Permutation (children (reread fs t) parent) (children t parent)) /\
+  (forall li x, match children_chk t li x, children_chk (reread fs t) li x with
+                | TOk a, TOk b => Permutation b a
+                | TErr c, TErr d => c = d
+                | _, _ => False
+                end) /\
+  (forall li x, Permutation (leaves_of (reread fs t) li x) (leaves_of t li x)) /\
+  (forall parent, Permutation (leaf_pairs (reread fs t) parent) (leaf_pairs t parent)) /\
+  is_equal_to t (reread fs t) = true /\ tree_eqb t (reread fs t) = true.
+Proof. exact reread_preserves. Qed.
+Print Assumptions c10_reread_preserves.
+
+(* the shape of the re-read tree: related to t; a tree without sets comes back literally; every
+   entry keeps its key and has its collection sorted exactly when it is flagged as a set *)
+Theorem c10_reread_shape : forall fs t,
+  tree_perm t (reread fs t) /\ reread flags_json t = t /\
+  (forall fl lv i, (i < length lv)%nat ->
+     nth i (reread_level fl lv) (0, []) =
+     (fst (nth i lv (0, [])),
+      if nth i fl false then zsort (snd (nth i lv (0, []))) else snd (nth i lv (0, [])))).
+Proof. exact reread_shape. Qed.
+Print Assumptions c10_reread_shape.
 
 (* ====================================================================== backfill (used by C01 / C17) *)
 
@@ -312,6 +444,31 @@ Theorem c10_backfill_fills : forall t rec l, validate t = true -> wf t -> length
     forall k, (k < length t)%nat -> nth k rec' None = ancestor_at t (length t - 1) l k.
 Proof. exact backfill_fills. Qed.
 Print Assumptions c10_backfill_fills.
+
+(* There are two models of backfill_assignments: Tree.backfill above (one cell, per level its
+   'assignment' or nothing; tied to the code by tag 1018 in harness/props/c10.py) and
+   RunMapping.backfill (the list of cells as the pipeline holds them, dicts stored-level-index ->
+   output record, loops in the code's order; tied by tags 1701 / 1703 in harness/props/c17.py).
+   They agree, for every tree and every list of cell dicts (no well-formedness needed), through
+   rec_of n cell = the assignment of cell at each of the n levels: the pipeline model succeeds
+   exactly when Tree.backfill succeeds on every cell, with those assignments; it fails only with
+   the KeyError, and then Tree.backfill raises it for some cell.  Hence c10_backfill_spec and
+   c10_backfill_fills speak about the pipeline model too. *)
+Theorem c10_backfill_models_agree : forall (t : tree) (cells : list RunMapping.cellmap),
+  (forall cells', RunMapping.backfill t cells = TOk cells' ->
+     Forall2 (fun c c' => Tree.backfill t (rec_of (length t) c) = TOk (rec_of (length t) c')) cells cells') /\
+  (forall e, RunMapping.backfill t cells = TErr e ->
+     e = E_KEY /\ exists c, In c cells /\ Tree.backfill t (rec_of (length t) c) = TErr E_KEY) /\
+  (Forall (fun c => exists r, Tree.backfill t (rec_of (length t) c) = TOk r) cells ->
+     exists cells', RunMapping.backfill t cells = TOk cells') /\
+  (forall cell,
+     match RunMapping.backfill t [cell] with
+     | TOk [cell'] => Tree.backfill t (rec_of (length t) cell) = TOk (rec_of (length t) cell')
+     | TOk _ => False
+     | TErr e => e = E_KEY /\ Tree.backfill t (rec_of (length t) cell) = TErr E_KEY
+     end).
+Proof. exact backfill_models_agree. Qed.
+Print Assumptions c10_backfill_models_agree.
 
 (* ====================================================================== non-vacuity *)
 (* a 3-level tree: two classes, three subclasses, five clusters (one without cells), 5 rows;
@@ -352,6 +509,51 @@ Proof.
   - intros k a Hk. destruct k as [|[|[|k]]]; cbn [nth]; intros E; inversion E; subst; try reflexivity. lia.
   - split; [reflexivity|]. eexists. split; vm_compute; reflexivity.
 Qed.
+(* the audit's witness: the tree get_taxonomy_tree builds from three cells (children are a set, here
+   iterated in order of first appearance) does not come back literally, and leaves_to_compare
+   lists the same pairs in another order; a set-free tree comes back literally *)
+Example c10_ex_reread :
+  get_taxonomy_tree 2 [[0; 11]; [0; 10]; [0; 12]] = TOk built /\
+  flags_built built = [[true]] /\
+  reread (flags_built built) built = built_reread /\ built <> built_reread /\
+  reread flags_json built = built /\
+  leaf_pairs built (Some (0%nat, 0)) = [(10, 11); (11, 12); (10, 12)] /\
+  leaf_pairs built_reread (Some (0%nat, 0)) = [(10, 11); (10, 12); (11, 12)] /\
+  leaf_pairs built (Some (0%nat, 0)) <> leaf_pairs built_reread (Some (0%nat, 0)).
+Proof. exact built_witness. Qed.
+(* the hypotheses of c10_reread_preserves on ex3 with sets at the two inner levels (and, to show a
+   mixed state, one leaf whose rows are a set): the keys stay where they are, [11;10] [21;20] [2;1]
+   come back sorted, [23;24] was sorted already *)
+Example c10_ex_reread_ex3 :
+  validate ex3 = true /\ wf ex3 /\
+  reread [[true; true]; [true; true; true]; [false; true]] ex3 =
+    [ [(1, [12]); (0, [10; 11])];
+      [(10, [20; 21]); (12, [23; 24]); (11, [22])];
+      [(20, [0]); (21, [1; 2]); (22, []); (23, [3]); (24, [4])] ] /\
+  leaf_pairs ex3 None = [(21, 23); (20, 23); (22, 23); (21, 24); (20, 24); (22, 24)] /\
+  leaf_pairs (reread (flags_built ex3) ex3) None = [(20, 23); (21, 23); (22, 23); (20, 24); (21, 24); (22, 24)].
+Proof.
+  split; [vm_compute; reflexivity|]. split; [apply wf_small; reflexivity|].
+  split; [vm_compute; reflexivity|]. split; vm_compute; reflexivity.
+Qed.
+(* the two backfill models on ex3 (= ex_tree): a cell mapped on the flattened tree, a cell mapped
+   with level 1 dropped, a cell whose stored node has no recorded parent *)
+Example c10_ex_backfill_link :
+  ex_tree = ex3 /\
+  map (rec_of 3) [[(2%nat, ex_orec 21)]; [(0%nat, ex_orec 1); (2%nat, ex_orec 24)]] =
+    [[None; None; Some 21]; [Some 1; None; Some 24]] /\
+  (exists cells', RunMapping.backfill ex_tree [[(2%nat, ex_orec 21)]; [(0%nat, ex_orec 1); (2%nat, ex_orec 24)]] = TOk cells' /\
+     map (rec_of 3) cells' = [[Some 0; Some 10; Some 21]; [Some 1; Some 12; Some 24]]) /\
+  Tree.backfill ex_tree [None; None; Some 21] = TOk [Some 0; Some 10; Some 21] /\
+  RunMapping.backfill ex_tree [[(2%nat, ex_orec 99)]] = TErr E_KEY /\
+  Tree.backfill ex_tree (rec_of 3 [(2%nat, ex_orec 99)]) = TErr E_KEY.
+Proof. split; [reflexivity | exact backfill_link_example]. Qed.
+(* a name that is no node: the unchecked query is empty, the checked one is the KeyError *)
+Example c10_ex_non_node :
+  ancestors ex3 2 99 = [] /\ ancestors_chk ex3 2 99 = TErr E_KEY /\
+  children ex3 (Some (1%nat, 99)) = [] /\ children_chk ex3 1 99 = TErr E_NONODE /\
+  ancestors_chk ex3 0 99 = TOk [] /\ ancestors_chk ex3 2 21 = TOk [(1%nat, 10); (0%nat, 0)].
+Proof. vm_compute. repeat split. Qed.
 (* a mutant of each rejected class on ex3 (the duplicate child was accepted before the repair of F3),
    and the F3 witnesses themselves: well-formed dicts, refused *)
 Example c10_ex_mutants :
@@ -412,6 +614,17 @@ Example c10_def_mutations : forall lv p c x cs,
   add_child lv p c = map (fun nc => if fst nc =? p then (fst nc, snd nc ++ [c]) else nc) lv /\
   add_node lv x cs = lv ++ [(x, cs)].
 Proof. intros. split; reflexivity. Qed.
+Example c10_def_tree_perm : forall t u,
+  tree_perm t u <->
+  Forall2 (Forall2 (fun a b : node * list Z => fst a = fst b /\ Permutation (snd a) (snd b))) t u.
+Proof. intros. reflexivity. Qed.
+Example c10_def_reread_witnesses :
+  built = [[(0, [11; 10; 12])]; [(11, [0]); (10, [1]); (12, [2])]] /\
+  built_reread = [[(0, [10; 11; 12])]; [(11, [0]); (10, [1]); (12, [2])]].
+Proof. split; reflexivity. Qed.
+Example c10_def_rec_of : forall n (cell : RunMapping.cellmap),
+  rec_of n cell = map (fun k => option_map RunMapping.o_asg (RunMapping.lookup k cell)) (seq 0 n).
+Proof. intros. reflexivity. Qed.
 Example c10_def_witnesses :
   f3_tree = [[(0, [1; 1; 2])]; [(1, []); (2, [])]] /\
   f3_tree_rows = [[(0, [1; 1; 2])]; [(1, [7]); (2, [8])]] /\
